@@ -89,19 +89,15 @@ contract('saml2_tophat.response:StatusResponse.__init__', inline=True)
 contract(ARQ + '.__init__', inline=True)
 EPL = 'List(Tuple(Str, Str))'
 _T = "as_type(cfg_attr(cfg, 'endpoints', ctx), 'Dict(Str, Any)')"
-# the configured endpoint table has the documented shape: service -> list of (location, binding) pairs
-macro('EP_TABLE_OK', ['cfg', 'ctx'],
+# the configured endpoint table has the documented shape for the service asked for: a list of (location, binding) pairs
+# (no quantifier over keys: only the entry of that service is read)
+macro('EP_TABLE_OK', ['cfg', 'ctx', 'svc'],
       "cfg_attr(cfg, 'endpoints', ctx) is None or (typed(cfg_attr(cfg, 'endpoints', ctx), 'Dict(Str, %s)') and "
-      "forall(lambda k: implies(has_key(%s, k), typed(%s[k], '%s') and "
-      "forall(lambda j: typed(as_type(%s[k], '%s')[j], 'Tuple(Str, Str)'), 0, len(as_type(%s[k], '%s')))), 'Val'))"
+      "implies(has_key(%s, svc), typed(%s[svc], '%s') and "
+      "forall(lambda j: typed(as_type(%s[svc], '%s')[j], 'Tuple(Str, Str)'), 0, len(as_type(%s[svc], '%s')))))"
       % (EPL, _T, _T, EPL, _T, EPL, _T, EPL))
 contract('saml2_tophat.config:Config.endpoint', types={'service': 'Str', 'binding': 'Opt(Str)', 'context': 'Opt(Str)'}, returns='List(Str)',
-         requires=["cfg_attr(self, 'endpoints', context) is None or typed(cfg_attr(self, 'endpoints', context), 'Dict(Str, %s)')" % EPL,
-                   "implies(cfg_attr(self, 'endpoints', context) is not None, forall(lambda k: implies(has_key(as_type(cfg_attr(self, 'endpoints', context), 'Dict(Str, Any)'), k), "
-                   "typed(as_type(cfg_attr(self, 'endpoints', context), 'Dict(Str, Any)')[k], '%s')), 'Val'))" % EPL,
-                   "implies(cfg_attr(self, 'endpoints', context) is not None and has_key(as_type(cfg_attr(self, 'endpoints', context), 'Dict(Str, Any)'), service), "
-                   "forall(lambda j: typed(as_type(as_type(cfg_attr(self, 'endpoints', context), 'Dict(Str, Any)')[service], '%s')[j], 'Tuple(Str, Str)'), 0, "
-                   "len(as_type(as_type(cfg_attr(self, 'endpoints', context), 'Dict(Str, Any)')[service], '%s'))))" % (EPL, EPL)],
+         requires=['EP_TABLE_OK(self, context, service)'],
          lets={'TAB': "as_type(cfg_attr(self, 'endpoints', context), 'Dict(Str, %s)')" % EPL},
          ensures=[# C10 / C05: only locations configured for this very service, and -- when a binding is asked for -- this very binding
                   ('C10-own-endpoints-of-that-service-and-binding',
@@ -129,7 +125,7 @@ contract(ENT + '._parse_response[AuthnResponse]', variant_of=ENT + '._parse_resp
                 'kwargs': 'Dict(Str, Any)'},
          returns="Opt(Inst('%s'))" % ARQ, feas_ms=60, merge_exits='raises',
          requires=[_KWSET, 'forall(lambda k: implies(has_key(kwargs, k), %s), "Val")' % ' or '.join("k == '%s'" % k for k in _KW),
-                   "forall(lambda c: EP_TABLE_OK(self.config, c), 'Val')",
+                   "EP_TABLE_OK(self.config, self.entity_type, 'assertion_consumer_service')",
                    "is_str(kwargs['entity_id'])", "kwargs['valid_destination_regex'] is None or is_str(kwargs['valid_destination_regex'])",
                    "typed(kwargs['return_addrs'], 'Opt(List(Str))')", "kwargs['conv_info'] is None or typed(kwargs['conv_info'], 'Dict(Str, Any)')",
                    "kwargs['outstanding_queries'] is None or typed(kwargs['outstanding_queries'], 'Dict(Str, Any)')",
@@ -195,7 +191,8 @@ for _cls in ['AuthnRequest', 'LogoutRequest', 'AttributeQuery', 'AuthnQuery', 'A
              types={'enc_request': 'Any', 'request_cls': "Cls('%s')" % _cq, 'service': 'Str', 'binding': 'Opt(Str)'},
              returns="Opt(Inst('%s'))" % _cq, merge_exits='raises',
              # the two options are configuration booleans (or unset)
-             requires=["class_is(request_cls, %r)" % _cq, "forall(lambda c: EP_TABLE_OK(self.config, c), 'Val')",
+             requires=["class_is(request_cls, %r)" % _cq, "EP_TABLE_OK(self.config, self.entity_type, service)",
+                       "EP_TABLE_OK(self.config, 'aa', service)", "EP_TABLE_OK(self.config, 'aq', service)", "EP_TABLE_OK(self.config, 'pdp', service)",
                        "typed(cfg_attr(self.config, 'want_authn_requests_signed', 'idp'), 'Opt(Bool)')",
                        "typed(cfg_attr(self.config, 'want_authn_requests_only_with_valid_cert', 'idp'), 'Opt(Bool)')"],
              ensures=[
